@@ -179,13 +179,12 @@ PROPS["C06"] = {
         ("R-KAUFMAN-COL", rp2.rule_kaufman_col, {}),
         ("R-COEF-SOLVE", rp.rule_coef_solve, {}),
         ("R-RESID-TERM", rp.rule_resid_term, {}),
-        ("R-DOF-GUARD", _dof_guard, {}),
-        ("R-CHI2", _chi2, {}),
-        ("R-COVARIANCE", rs2.rule_covariance, {}),
+        ("R-WEIGHT-USES", rp2.rule_weight_uses, {}),
     ],
     "explanation": "Every multiplication by weights in the crate uses the single weights role (problem / builder / statistics argument) and is applied to an unweighted quantity exactly once "
                    "(Y at build, Phi at every update, each D_k in the Jacobian, J and Phi*c in the statistics); default weights are Unit; Unit is the identity; Diagonal is elementwise row scaling. "
-                   "Reduced chi2 and covariance are built from W·r and W·J with degrees of freedom N−(M+P) taken from the model's counts only, so the weights enter the statistics through the row scaling and nowhere else.",
+                   "Who may read the weights: in the problem, its builder and the statistics the weights value is only the left operand of the row scaling, asked for its size, copied, or handed to another role's entry — "
+                   "nothing else (e.g. a count of non-zero weights) is computed from it, so the weights enter every result through the row scaling and nowhere else.",
     "not_decided": ["equivalence with the row-scaled problem along a whole fit (numerics)", "zero/negative weights beyond 'pure elementwise product'"],
 }
 PROPS["C07"] = {
